@@ -212,6 +212,38 @@ def dofs_config(h, mesh, spec, free=None):
         h.concrete('entries of DOFs sharing a cell receive contributions', not bad, str(bad[:5]))
 
 
+def derived_basis_config(h, mesh, spec1, spec2, free=None):
+    """Bases derived from an existing one (with_element, with_elements, boundary, FacetBasis.with_element) carry the numbering of a
+    basis built from scratch for the same (mesh, element): same per-cell table, same N, same entity tables, same DOF locations."""
+    import skfem as S
+    with warnings.catch_warnings():
+        warnings.simplefilter('ignore')
+        m = make_mesh(h, mesh, free=free)
+        e1, e2 = make_elem(spec1), make_elem(spec2)
+        b1 = S.CellBasis(m, e1, intorder=2)
+        t_ = h.sym('t', ())
+        h.zero('trivial', t_ - t_)
+        h.sample(dict(mesh=mesh, first=spec1, second=spec2))
+
+        def same(tag, got, want):
+            ok = int(got.N) == int(want.N) and np.array_equal(np.asarray(got.element_dofs), np.asarray(want.element_dofs))
+            for nm in ('nodal_dofs', 'facet_dofs', 'edge_dofs', 'interior_dofs'):
+                ok = ok and np.array_equal(np.asarray(getattr(got.dofs, nm)), np.asarray(getattr(want.dofs, nm)))
+            h.concrete('%s: N, per-cell table and entity tables == basis built from scratch' % tag, ok,
+                       'N %s vs %s, table %s vs %s' % (got.N, want.N, np.shape(got.element_dofs), np.shape(want.element_dofs)))
+            if ok and want.doflocs is not None:
+                h.concrete('%s: DOF locations available' % tag, got.doflocs is not None)
+                if got.doflocs is not None:
+                    h.equal('%s: DOF locations' % tag, np.asarray(got.doflocs), np.asarray(want.doflocs))
+        fresh2 = S.CellBasis(m, make_elem(spec2), intorder=2)
+        same('with_element', b1.with_element(e2), fresh2)
+        same('with_element back', b1.with_element(e2).with_element(make_elem(spec1)), S.CellBasis(m, make_elem(spec1), intorder=2))
+        sel = np.array([m.t.shape[1] - 1], dtype=np.int32)
+        same('with_elements + with_element', b1.with_elements(sel).with_element(e2), S.CellBasis(m, make_elem(spec2), intorder=2, elements=sel))
+        fb = b1.boundary()
+        same('boundary().with_element', fb.with_element(e2), S.FacetBasis(m, make_elem(spec2), intorder=2))
+
+
 def kind_of(mesh):
     for k, v in MESHES.items():
         if mesh in v:
@@ -262,6 +294,14 @@ def build_configs(tier, seed):
                         continue
                 cfgs.append(dict(name='%s/%s%s' % (mesh_, spec.replace(' ', ''), '' if free is None else '/free=%s' % (free if isinstance(free, str) else ','.join(map(str, free)))), fn=dofs_config, kw=dict(mesh=mesh_, spec=spec, free=free),
                                  opts=dict(timeout=600 if quick else 2400)))
+    # derived bases
+    for mesh, s1, s2, free in [('tet2', 'ElementTetP1', 'ElementTetP2', 'none'), ('tet2', 'ElementTetP2', 'ElementTetP1', 'none'),
+                               ('tri2', 'ElementTriP1', 'ElementTriP2', None), ('tri2', 'ElementTriP2', 'ElementTriCR', None),
+                               ('hex2', 'ElementHex1', 'ElementHexS2', 'none'), ('tet2', 'ElementTetRT1', 'ElementTetN1', 'none'),
+                               ('tet2', 'ElementTetN1', 'ElementTetP0', 'none'), ('quad2', 'ElementQuad1', 'ElementQuad2', 'none'),
+                               ('line3perm', 'ElementLineP1', 'ElementLineP2', None)]:
+        cfgs.append(dict(name='derived/%s/%s->%s' % (mesh, s1, s2), fn=derived_basis_config, kw=dict(mesh=mesh, spec1=s1, spec2=s2, free=free),
+                         opts=dict(timeout=600)))
     return cfgs
 
 
